@@ -168,6 +168,41 @@ pub fn gen(rng: &mut Rng, tier: Tier, out: &mut Vec<String>) {
             out.push(format!("{op} {}", h64(rng.u64().max(1))));
         }
     }
+    // states from which rejection sampling needs unusually many rounds (found by scanning random
+    // states with the library's own candidate sampler): a bounded-retry "optimisation" or a wrong
+    // fallback only shows on these
+    let scan = if q { 4_000_000u64 } else { 40_000_000 };
+    let cube = Uniform([-1.0f32; 3]..[1.0; 3]);
+    let square = Uniform([-1.0f32; 2]..[1.0; 2]);
+    for _ in 0..scan {
+        let s = rng.u64().max(1);
+        let mut g = Xorshift64(s);
+        let mut n3 = 0;
+        loop {
+            let [x, y, z] = cube.sample(&mut g);
+            if x * x + y * y + z * z <= 1.0 || n3 >= 40 {
+                break;
+            }
+            n3 += 1;
+        }
+        if n3 >= 14 {
+            out.push(format!("ball {}", h64(s)));
+            out.push(format!("pball {}", h64(s)));
+        }
+        let mut g = Xorshift64(s);
+        let mut n2 = 0;
+        loop {
+            let [x, y] = square.sample(&mut g);
+            if x * x + y * y <= 1.0 || n2 >= 40 {
+                break;
+            }
+            n2 += 1;
+        }
+        if n2 >= 8 {
+            out.push(format!("disk {}", h64(s)));
+            out.push(format!("pdisk {}", h64(s)));
+        }
+    }
     // exhaustive mantissa sweep (digest protocol): every one of the 2^23 mantissas x ranges
     let block: u64 = 1 << 16;
     let total: u64 = 1 << 23;
